@@ -194,6 +194,7 @@ def read_torrent(tb):
 
     files = []
     single_ok = False
+    lenient = False
     if lib.dget(info, "length") is not None:
         n = length_of(info)
         m, ok = md5_of(info)
@@ -210,12 +211,17 @@ def read_torrent(tb):
             n = length_of(f)
             m, ok = md5_of(f)
             path = lib.dget(f, "path")
+            if isinstance(path, bytes) and _utf8(path) and n is not None and ok:
+                # not BEP 3 (`path` must be a list), and imdl refuses it; read leniently as a joined path so that the escape
+                # judgement below still applies should an implementation ever accept this spelling
+                lenient = True
+                path = path.split(b"/")
             if n is None or not ok or not isinstance(path, list) or \
                     not all(isinstance(c, bytes) and _utf8(c) for c in path):
                 return None, "file entry malformed"
             files.append((path, n, m))
     return {"name": name, "p": p, "pieces": [pieces[i:i + 20] for i in range(0, len(pieces), 20)],
-            "files": files, "single": single_ok}, None
+            "files": files, "single": single_ok, "lenient": lenient}, None
 
 
 def content_root(cwd, mode, arg, input_rel, name):
@@ -257,6 +263,9 @@ def oracle(tb, cwd, mode, arg, input_rel):
         fulls.append((full, n, m))
     if res["escape"]:
         res["expect"], res["why"] = "not-success", "a listed path leaves the content root"
+        return res
+    if t.get("lenient"):
+        res["why"] = "a file's `path` is a byte string, not a list (not BEP 3); the statements leave the verdict open"
         return res
     if odd:
         res["why"] = "a path component is not a plain name (but the path stays inside the root)"
